@@ -350,6 +350,53 @@ func c14(repo string, out *fg.Out) error {
 	}
 	fmt.Fprintf(L, "def shortCircuitLiteral : String := %s\n", fg.LeanStr(sc1[0]))
 	fmt.Fprintf(L, "def rewriteNeeds : List String := %s\n", leanList(sc1[1:3]))
+	// skip-prefix test runs on the RESOLVED name (placeholder resolution before shouldSkipTableConversion)
+	// in every simple-table handler of both rewrite functions and in both loops of the extractor
+	var skipOnResolved []bool
+	for _, fn := range []string{"convertSQLToStoragePaths", "convertSQLToStoragePathsWithHeaderDB"} {
+		ff, fd := fg.FindFunc(api, "QueryHandler", fn)
+		if fd == nil {
+			return fmt.Errorf("%s not found", fn)
+		}
+		n := 0
+		ast.Inspect(fd.Body, func(x ast.Node) bool {
+			fl, ok := x.(*ast.FuncLit)
+			if !ok {
+				return true
+			}
+			skips := fg.CallsNamed(fl, "shouldSkipTableConversion")
+			if len(skips) == 0 {
+				return true
+			}
+			n++
+			res := fg.CallsNamed(fl, "resolveIdent")
+			okk := len(skips) == 1 && len(res) >= 1 && len(skips[0].Args) == 1 &&
+				ff.Text(skips[0].Args[0]) == "strings.ToLower(resolved)" && res[0].Pos() < skips[0].Pos()
+			skipOnResolved = append(skipOnResolved, okk)
+			return false
+		})
+		if n != 2 {
+			return fmt.Errorf("%s: expected 2 simple-table handlers calling shouldSkipTableConversion, found %d", fn, n)
+		}
+	}
+	ef, efd := fg.FindFunc(api, "", "extractTableReferences")
+	if efd == nil {
+		return fmt.Errorf("extractTableReferences not found")
+	}
+	etxt := ef.Text(efd)
+	eskips := fg.CallsNamed(efd, "shouldSkipTableConversion")
+	if len(eskips) != 2 {
+		return fmt.Errorf("extractTableReferences: expected 2 shouldSkipTableConversion calls, found %d", len(eskips))
+	}
+	for _, c := range eskips {
+		skipOnResolved = append(skipOnResolved, len(c.Args) == 1 && ef.Text(c.Args[0]) == "table" &&
+			strings.Count(etxt, "tableName := resolve(") == 2 && strings.Count(etxt, "table := strings.ToLower(tableName)") == 2)
+	}
+	bs2 := make([]string, len(skipOnResolved))
+	for i, b := range skipOnResolved {
+		bs2[i] = fmt.Sprint(b)
+	}
+	fmt.Fprintf(L, "def skipTestOnResolvedName : List Bool := [%s]\n", strings.Join(bs2, ", "))
 	// transform-cache key: `cacheKey := headerDB + <sep> + sql`, assigned exactly once (unconditionally)
 	var keyAssigns []ast.Expr
 	ast.Inspect(gt.Body, func(n ast.Node) bool {
